@@ -43,6 +43,8 @@ type Sub struct {
 	hookOrd int
 	// ParkHook: called inside the hook (may block the sync on the harness)
 	OnHook func(peer.ID, cid.Cid)
+	// OnWriteOpen: called whenever the subscriber opens a writer of the destination store (may block)
+	OnWriteOpen func()
 }
 
 // NewSub builds the destination link system and the subscriber. withRecv adds an announce receiver (no libp2p host: direct announcements only).
@@ -59,6 +61,12 @@ func NewSub(w *World, withRecv bool, opts ...dagsync.Option) (*Sub, error) {
 		return bytes.NewReader(b), nil
 	}
 	s.Lsys.StorageWriteOpener = func(_ ipld.LinkContext) (io.Writer, ipld.BlockWriteCommitter, error) {
+		s.mu.Lock()
+		on := s.OnWriteOpen
+		s.mu.Unlock()
+		if on != nil {
+			on()
+		}
 		var buf bytes.Buffer
 		return &buf, func(l ipld.Link) error {
 			s.mu.Lock()
@@ -92,6 +100,9 @@ func NewSub(w *World, withRecv bool, opts ...dagsync.Option) (*Sub, error) {
 	}()
 	return s, nil
 }
+
+// SetOnWriteOpen installs a callback run at every writer-open of the destination store.
+func (s *Sub) SetOnWriteOpen(f func()) { s.mu.Lock(); s.OnWriteOpen = f; s.mu.Unlock() }
 
 // Hook is the general block hook: logs, implements the segmented-sync contract
 // (next = PreviousID of an ad / Next of an entry chunk) and optionally fails.
